@@ -2,7 +2,7 @@
 """Developer tool: changes that are meant NOT to break a property (written by sub-agents, /tmp/wtb-<ID>/OUT/m*/): confirm that the
 repository's suite passes with each and run the quick checks against it; every check is expected to stay silent.
 
-  selftest/process_benign.py <ID> [--src DIR] [--also C04,C03] [--only m2]
+  selftest/process_benign.py <ID> [--src DIR] [--also C04,C03] [--only m2] [--tag c]
 
 A change is kept as /verif/seeded/_benign/<ID>-bN/ (patch.diff, README.md, demo if any, meta.json with the exit code of every check)."""
 import glob
@@ -43,6 +43,7 @@ def main():
     src = "/tmp/wtb-%s/OUT" % pid
     also = []
     only = None
+    tag = "b"
     i = 1
     while i < len(args):
         if args[i] == "--src":
@@ -51,6 +52,8 @@ def main():
             also = [x for x in args[i + 1].split(",") if x]
         elif args[i] == "--only":
             only = args[i + 1]
+        elif args[i] == "--tag":
+            tag = args[i + 1]
         i += 2
     for d in sorted(glob.glob(src + "/m*/")):
         name = os.path.basename(d.rstrip("/"))
@@ -76,7 +79,7 @@ def main():
         for c, v in out.items():
             print("    check %s (quick): exit %d  %s" % (c, v["exit"], ", ".join("%s x%d" % (s["sig"], s["count"]) for s in v["signatures"])))
         sys.stdout.flush()
-        dst = os.path.join(VERIF, "seeded", "_benign", "%s-b%s" % (pid, name[1:]))
+        dst = os.path.join(VERIF, "seeded", "_benign", "%s-%s%s" % (pid, tag, name[1:]))
         os.makedirs(dst, exist_ok=True)
         for f in os.listdir(d):
             if f.endswith(".rs") or f in ("patch.diff", "README.md"):
